@@ -108,6 +108,49 @@ func c01count(xs []int, p int) uint8 {
 	return c
 }
 
+// c01spliceIn: post is pre with v inserted at some position (a non-forking disjunction over
+// the positions; the in-order sequence after an insertion differs from the one before by
+// exactly that, whatever rotations happened).
+func c01spliceIn(post, pre []int, v int) bool {
+	if len(post) != len(pre)+1 {
+		return false
+	}
+	any := false
+	for idx := 0; idx <= len(pre); idx++ {
+		ok := post[idx] == v
+		for j := range post {
+			switch {
+			case j < idx:
+				ok = vAnd(ok, post[j] == pre[j])
+			case j > idx:
+				ok = vAnd(ok, post[j] == pre[j-1])
+			}
+		}
+		any = vOr(any, ok)
+	}
+	return any
+}
+
+// c01spliceOut: post is pre without one occurrence of v.
+func c01spliceOut(post, pre []int, v int) bool {
+	if len(post)+1 != len(pre) {
+		return false
+	}
+	any := false
+	for idx := 0; idx < len(pre); idx++ {
+		ok := pre[idx] == v
+		for j := range post {
+			if j < idx {
+				ok = vAnd(ok, post[j] == pre[j])
+			} else {
+				ok = vAnd(ok, post[j] == pre[j+1])
+			}
+		}
+		any = vOr(any, ok)
+	}
+	return any
+}
+
 func c01eq(a, b []int, label string) {
 	vAssert(len(a) == len(b), label)
 	for i := range a {
@@ -165,11 +208,13 @@ func c01step(op int) {
 	c01in(root, &pre)
 	for i := 1; i < len(pre); i++ {
 		vAssume(c01le(rev, pre[i-1], pre[i]))
+		if vParam("STRICT") == 1 {
+			vAssume(pre[i-1] != pre[i])
+		}
 	}
 	t := &Tree[int]{compare: cmp, root: root, count: len(pre)}
 	n := len(pre)
 	set := vParam("SET") == 1
-	p := vInt("probe")
 	v := vInt("v")
 	present := false
 	for _, x := range pre {
@@ -181,7 +226,7 @@ func c01step(op int) {
 		post := c01inv(t, rev, "Add")
 		if set {
 			vAssert(len(post) == n+1, "Add: one more value in the tree")
-			vAssert(c01count(post, p) == c01count(pre, p)+vB2U8(v == p), "Add: the multiset gains exactly the added value")
+			vAssert(c01spliceIn(post, pre, v), "Add: the in-order sequence is the old one with the value spliced in (the multiset gains exactly the added value)")
 			vAssert(t.Contains(v), "Add: the added value is found")
 		}
 		if n >= 3 {
@@ -199,7 +244,7 @@ func c01step(op int) {
 			vAssert(ok == present, "Remove reports true exactly when the value is present")
 			if ok {
 				vAssert(len(post) == n-1, "Remove(present): one value fewer")
-				vAssert(c01count(post, p) == c01count(pre, p)-vB2U8(v == p), "Remove(present): exactly one occurrence of the value is deleted")
+				vAssert(c01spliceOut(post, pre, v), "Remove(present): the in-order sequence is the old one without one occurrence of the value")
 				vCover("step: Remove present")
 			} else {
 				c01eq(post, pre, "Remove(absent): the tree is unchanged")
